@@ -4,6 +4,7 @@ CONSTANTS
   Offs = {0}
   LimIdx = {1, 2, 3, 4, 5, 6, 7, 8}
   Ks = {0, 1, 2, 3, 4, 5, 6}
+  Warm = {"none"}
 INIT Init
 NEXT Next
 CHECK_DEADLOCK FALSE
